@@ -2,11 +2,14 @@ package main
 
 func controlsC16() []Control {
 	return []Control{
+		{Name: "current hand state published by the queue consumer", Expect: "R5", Mutate: replaceBoth("(*game).updateGameState", "\tg.gs = state\n", "", "\tg.incomingStates <- state\n", "\tg.incomingStates <- state\n\tgo func() { g.gs = state }()\n")},
+		{Name: "wager result applied to the hand in the background", Expect: "R5", Mutate: replaceIn("(*game).Call", "\tg.updateGameState(gs)\n", "\tgo g.updateGameState(gs)\n", 0)},
 		{Name: "PlayersLeave without the engine mutex", Expect: "R2", Mutate: replaceIn("(*tableEngine).PlayersLeave", "te.lock.Lock()\n\tdefer te.lock.Unlock()\n", "", 0)},
 		{Name: "PlayerCall without the engine mutex", Expect: "R2", Mutate: replaceIn("(*tableEngine).PlayerCall", "te.lock.Lock()\n\tdefer te.lock.Unlock()\n", "", 0)},
 		{Name: "UpdateTablePlayers unlocks early instead of deferring", Expect: "R1", Mutate: replaceIn("(*tableEngine).UpdateTablePlayers", "defer te.lock.Unlock()\n", "te.lock.Unlock()\n", 0)},
 		{Name: "PlayerReserve reads the table before locking", Expect: "R1", Mutate: replaceIn("(*tableEngine).PlayerReserve", "te.lock.Lock()\n\tdefer te.lock.Unlock()\n\n\t// find player index in PlayerStates\n\ttargetPlayerIdx := te.table.FindPlayerIdx(joinPlayer.PlayerID)\n", "targetPlayerIdx := te.table.FindPlayerIdx(joinPlayer.PlayerID)\n\tte.lock.Lock()\n\tdefer te.lock.Unlock()\n", 0)},
-		{Name: "unlocked PlayerRedeemChips seats a player", Expect: "R2", Mutate: replaceIn("(*tableEngine).PlayerRedeemChips", "playerState.Bankroll += joinPlayer.RedeemChips", "playerState.Bankroll += joinPlayer.RedeemChips\n\tte.batchAddPlayers([]JoinPlayer{joinPlayer})", 0)},
+		{Name: "unlocked settlement-finish report seats a player", Expect: "R2", Mutate: replaceIn("(*tableEngine).PlayerSettlementFinish", "\tte.ogm.Ready(playerID)\n", "\tte.ogm.Ready(playerID)\n\tte.batchAddPlayers([]JoinPlayer{{PlayerID: playerID}})\n", 0)},
+		{Name: "add-on takes the lock after fetching the player record", Expect: "R1", Mutate: replaceBoth("(*tableEngine).PlayerRedeemChips", "\tte.lock.Lock()\n\tdefer te.lock.Unlock()\n", "", "\tplayerState := te.table.State.PlayerStates[playerIdx]\n", "\tplayerState := te.table.State.PlayerStates[playerIdx]\n\tte.lock.Lock()\n\tdefer te.lock.Unlock()\n")},
 		{Name: "seat manager JoinPlayers without its lock", Expect: "R3", Mutate: replaceIn("(*seatManager).JoinPlayers", "sm.mu.Lock()\n\tdefer sm.mu.Unlock()\n", "", 0)},
 		{Name: "seat manager RandomAssignSeats takes only the read lock", Expect: "R3", Mutate: replaceIn("(*seatManager).RandomAssignSeats", "sm.mu.Lock()\n\tdefer sm.mu.Unlock()\n", "sm.mu.RLock()\n\tdefer sm.mu.RUnlock()\n", 0)},
 		{Name: "PlayerReserve calls PlayersLeave while holding the mutex", Expect: "R4", Mutate: replaceIn("(*tableEngine).PlayerReserve", "te.emitEvent(\"PlayerReserve\", joinPlayer.PlayerID)", "te.PlayersLeave([]string{})\n\tte.emitEvent(\"PlayerReserve\", joinPlayer.PlayerID)", 0)},
